@@ -377,7 +377,10 @@ func genC10(g *Gen, tier string, emit func(op string, args ...string)) {
 		case 0:
 			sec = int64(g.U64())
 		case 1:
-			sec = -int64(g.U64() % 5000000000)
+			// (back to year 1, and forward to year 4000 in the next case: conversions through nanoseconds wrap there)
+			sec = -int64(g.U64() % 62000000000)
+		case 2:
+			sec = int64(g.U64() % 64000000000)
 		default:
 			sec = int64(g.U64() % 5000000000)
 		}
